@@ -1,5 +1,6 @@
 import ErdosVerif.Lemmas.SimInv
 import ErdosVerif.Lemmas.LedgerCopy
+import ErdosVerif.Lemmas.LedgerResident
 /-!
 # C01 — no worker is ever oversubscribed during a simulation
 
@@ -59,5 +60,28 @@ theorem placement_charges_demand (r : Resources) (k : Res) (c : Comp) (q : Nat) 
     (hok : (r.allocate k c q).2 = .ok) :
     allocByName (r.allocate k c q).1.allocs n = allocByName r.allocs n + (if k.name = n then q else 0) :=
   Resources.allocate_allocByName r k c q n hok
+
+/-- **A task never draws resources from more than one worker** (pool level, every pool
+state, every request): a successful `WorkerPool.place_task` of a task that is resident on
+no worker of the pool leaves it resident on exactly one worker and changes the residency
+of no other task. (The hypothesis is the simulator's discipline: it places a task only
+when it starts it, `Task.start` is refused unless the task is SCHEDULED, and a started
+task is never SCHEDULED again — `C02.starts_at_most_once`.) -/
+theorem single_host_on_placement (p : Pool) (t : Nat) (strats : List Strategy) (s? : Option Strategy) (wid? : Option Nat)
+    (hnone : ∀ x ∈ p.workers, x.placed.has t = false)
+    (hok : (p.placeTask t strats s? wid?).2 = .ok true) :
+    (∃ i, (p.placeTask t strats s? wid?).1.hostsOf t = [i]) ∧
+    ∀ u, u ≠ t → (p.placeTask t strats s? wid?).1.hostsOf u = p.hostsOf u :=
+  Pool.placeTask_single_host p t strats s? wid? hnone hok
+
+/-- Non-vacuity: two one-GPU workers, the first one busy: the task lands on worker 1 only. -/
+example :
+    let w : Worker := Worker.ofVec [(⟨"GPU", some 1⟩, 1)]
+    let s : Strategy := ⟨0, false, 1, 5, [(⟨"GPU", none⟩, 1)]⟩
+    let p0 : Pool := ⟨[w, w], []⟩
+    let p1 := (p0.placeTask 7 [s] (some s) none).1
+    (match (p1.placeTask 8 [s] (some s) none).2 with | .ok true => true | _ => false) = true ∧
+    (p1.placeTask 8 [s] (some s) none).1.hostsOf 8 = [1] ∧
+    (p1.placeTask 8 [s] (some s) none).1.hostsOf 7 = [0] := by decide
 
 end ErdosVerif.C01
